@@ -353,6 +353,46 @@ Proof.
   pose proof (IH m1 A2 H1) as H2.
   destruct (change_loop cs m1) as [m2 r2]. exact H2.
 Qed.
+
+(* a struct-typed model stays a value of the struct under changes that give a a number and b a string *)
+Lemma sfits_inv : forall m, sfits m = true -> exists n x, m = [(fld_a, JNum n); (fld_b, JStr x)].
+Proof.
+  intros m H. destruct m as [|[k1 v1] [|[k2 v2] [|p m]]]; try discriminate;
+    destruct v1; try discriminate; destruct v2; try discriminate.
+  cbn [sfits] in H. apply andb_true_iff in H. destruct H as [H1 H2].
+  apply beq_eq in H1. apply beq_eq in H2. subst. eauto.
+Qed.
+Lemma sfits_change_step : forall k a m,
+  safits k a = true -> sfits m = true -> sfits (fst (change_step k a m)) = true.
+Proof.
+  intros k a m A H. destruct (sfits_inv m H) as [n [x E]]. subst m.
+  destruct a as [g|]; [|discriminate]. unfold safits in A.
+  destruct g; cbn [norm] in A; try discriminate; apply beq_eq in A; subst k;
+    unfold change_step; cbn; try reflexivity.
+  - destruct (n0 =? n); reflexivity.
+  - destruct (beq s x); reflexivity.
+Qed.
+Lemma sfits_change_loop : forall cs m,
+  forallb (fun ka : key * act gval => safits (fst ka) (snd ka)) cs = true ->
+  sfits m = true -> sfits (fst (change_loop cs m)) = true.
+Proof.
+  induction cs as [|[k a] cs IH]; intros m A H; [exact H|].
+  cbn [forallb fst snd] in A. apply andb_true_iff in A. destruct A as [A1 A2].
+  cbn [change_loop].
+  pose proof (sfits_change_step k a m A1 H) as H1.
+  destruct (change_step k a m) as [m1 r1]. cbn [fst] in H1.
+  pose proof (IH m1 A2 H1) as H2.
+  destruct (change_loop cs m1) as [m2 r2]. exact H2.
+Qed.
+Lemma mfits_change_loop : forall c cs m,
+  ev_fits c (EChange cs) = true -> mfits (c_ty c) m = true ->
+  mfits (c_ty c) (fst (change_loop cs m)) = true.
+Proof.
+  intros c cs m E H. cbn [ev_fits] in E. unfold mfits in *. destruct (c_ty c).
+  - apply fits_change_loop; assumption.
+  - apply fits_change_loop; assumption.
+  - apply sfits_change_loop; assumption.
+Qed.
 Lemma fits_insert : forall t n v l,
   vfits t v = true -> forallb (vfits t) l = true -> forallb (vfits t) (insert_at n v l) = true.
 Proof.
@@ -391,8 +431,7 @@ Proof.
     + cbn. exact V.
     + destruct rev as [|x rev]; [congruence|]. cbn [is_nil o_state st_val ofits].
       pose proof (start_fits c s _ D V ST) as F0. unfold fits in *. rewrite T in *.
-      cbn [ev_fits] in E.
-      pose proof (fits_change_loop (c_ty c) cs m0 E F0) as F1. rewrite L in F1. exact F1.
+      pose proof (mfits_change_loop c cs m0 E F0) as F1. rewrite L in F1. exact F1.
   - destruct (c_type c) eqn:T; [exact V|].
     destruct (i <? 0)%Z; [exact V|].
     unfold apply_add. rewrite T.
@@ -436,7 +475,7 @@ Qed.
 
 (* a value of the handler's Type unmarshals into itself *)
 Lemma vfits_vdec : forall t v, vfits t v = true -> vdec t v = Some v.
-Proof. intros [|] v H; [reflexivity|]. destruct v; cbn in H; try discriminate. reflexivity. Qed.
+Proof. intros [| |] v H; [reflexivity| |reflexivity]. destruct v; cbn in H; try discriminate. reflexivity. Qed.
 Lemma fits_dec_list : forall t l, forallb (vfits t) l = true -> dec_list t l = Some l.
 Proof.
   intros t. induction l as [|v l IH]; cbn [forallb dec_list]; intros H; [reflexivity|].
@@ -448,10 +487,15 @@ Proof.
   intros t. induction m as [|[k v] m IH]; cbn [forallb dec_model snd]; intros H; [reflexivity|].
   apply andb_true_iff in H. destruct H as [H1 H2]. rewrite (vfits_vdec _ _ H1), (IH H2). reflexivity.
 Qed.
+Lemma sfits_dec_struct : forall m, sfits m = true -> dec_struct m = Some m.
+Proof. intros m H. destruct (sfits_inv m H) as [n [x E]]. subst m. reflexivity. Qed.
 Lemma fits_decode : forall c r, fits c r = true -> decode c r = Some r.
 Proof.
   intros c r. unfold fits, decode. destruct (c_type c), r as [m|l|]; try discriminate; intros H.
-  - rewrite (fits_dec_model _ _ H). reflexivity.
+  - unfold mfits in H. destruct (c_ty c).
+    + rewrite (fits_dec_model _ _ H). reflexivity.
+    + rewrite (fits_dec_model _ _ H). reflexivity.
+    + rewrite (sfits_dec_struct _ H). reflexivity.
   - rewrite (fits_dec_list _ _ H). reflexivity.
 Qed.
 (* into an interface-valued Type nothing is converted *)
@@ -815,8 +859,8 @@ Proof.
     { destruct TA as [TA|[F E]].
       - split; eapply dec_exact; eauto.
       - cbn [ofits] in F. split; [eapply dec_exact; eauto|].
-        eapply dec_exact; [right|exact D1]. unfold fits in *. rewrite T in *. cbn [ev_fits] in E.
-        pose proof (fits_change_loop (c_ty c) cs m0 E F) as F1. rewrite L in F1. exact F1. }
+        eapply dec_exact; [right|exact D1]. unfold fits in *. rewrite T in *.
+        pose proof (mfits_change_loop c cs m0 E F) as F1. rewrite L in F1. exact F1. }
     subst b0 a0. cbn [o_state].
     intros e. cbn [st_val st_idx idx_spec].
     rewrite (idx_change_in ks 0 (RModel m0) (RModel m1) (st_idx s) [] NE).
